@@ -107,6 +107,13 @@ func (c *CEnv) tr(e *CExpr) *Val {
 		if a.T.Sort == SSetStr {
 			return &Val{T: Select(a.T, i.T), Ty: types.Typ[types.Bool]}
 		}
+		if a.T.Sort.IsArr() {
+			var vt types.Type
+			if m, ok := a.Ty.(*types.Map); ok {
+				vt = m.Elem()
+			}
+			return &Val{T: Select(a.T, i.T), Ty: vt}
+		}
 		if !a.T.Sort.IsSeq() {
 			cfail("cannot index non-sequence %s", e.Args[0])
 		}
@@ -463,6 +470,9 @@ func (c *CEnv) call(e *CExpr) *Val {
 	case "int", "uint":
 		a := arg(0)
 		return &Val{T: a.T, Ty: intTy}
+	case "unboxStr":
+		w.BG.Funs["unbox.Str"] = FunSig{Name: "unbox.Str", Args: []Sort{SRef}, Res: SStr}
+		return &Val{T: App("unbox.Str", SStr, arg(0).T), Ty: types.Typ[types.String]}
 	case "inSet":
 		return &Val{T: Select(arg(0).T, arg(1).T), Ty: boolTy}
 	}
